@@ -56,8 +56,10 @@ def main(argv):
             if line == "PANIC":
                 orfail.append({"what": "render panicked", "sequence": key})
                 break
-            hexout, n = line.split(" ")
+            hexout, n, sc = line.split(" ")
             counts.add(n)
+            if sc != "sc=0,1":
+                orfail.append({"what": "the stable counter did not restart for this render", "view": viewgen.sx_view(v), "values": sc, "sequence": key})
             k = viewgen.sx_state(st) + viewgen.sx_view(v)
             if k in seen:
                 nontriv = True
@@ -79,7 +81,7 @@ def main(argv):
         if len(counts) > 1:
             orfail.append({"what": "live node count at the start of a render is not constant", "counts": sorted(counts), "sequence": key})
         chk.note_case(key, nontriv)
-    chk.obligation("oracle: determinism, key discipline, constant node count over %d sequences" % len(seqs), not orfail, str(orfail[:2]))
+    chk.obligation("oracle: determinism, key discipline, restarted stable counter, constant node count over %d sequences" % len(seqs), not orfail, str(orfail[:2]))
     try:
         per = 150
         exprs = ["run_render %s" % glist(["(%s, %s)" % (viewgen.cq_state(st), viewgen.cq_view(v)) for st, v, _ in flat[i:i + per]])
@@ -136,8 +138,10 @@ def main(argv):
             if line == "PANIC":
                 mfail.append({"what": "render panicked", "sequence": key})
                 break
-            body, n = line.rsplit(" ", 1)
+            body, n, sc = line.rsplit(" ", 2)
             mode = e[0] if e[0] == "sync" else e[1]
+            if sc != "sc=0,1":
+                mfail.append({"what": "the stable counter did not restart for this render", "render": " ".join(e), "values": sc, "sequence": key})
             counts.setdefault("streaming" if mode == "streaming" else "scoped", set()).add(n)
             if e in seen:
                 nontriv = True
